@@ -15,7 +15,11 @@ LEVEL_TEXT = ("partial: Coq theorems over a small-step interleaving model of bot
               "sampled by a -race stress run (thorough tier), not proved; the runner's oracle judges every finished "
               "execution: without size limit by the sequential specification seq_exec, with the size limit by the "
               "sub-action specification qstep (Model/ConcEnfSpec.v)")
-LEVEL_NOTE = ("TIE TO C07 (theorems, not only through the code): Conc.seq_exec — the sequential specification the interleaved "
+LEVEL_NOTE = ("SCAN STREAM: the retention scanner is a client of the store, not part of the store models; cases of kind 'scan' are "
+              "judged by the clause directly (scan = a walk + removals of the expired messages it saw: at the end every fresh "
+              "message, of the prefix or delivered meanwhile, is listed and every expired one is gone; verdicts "
+              "fail:retention-scan-removed-unexpired-message / -kept-expired-message). "
+              "TIE TO C07 (theorems, not only through the code): Conc.seq_exec — the sequential specification the interleaved "
               "memory store is proved linearizable to — IS C07's MemStore.exec_mem without size limit, hence StoreSpec "
               "(conc_spec_is_storespec / conc_spec_final_is_memstore, every cap); therefore every finished concurrent "
               "execution without size limit is a StoreSpec.run_spec history in commit order (mem_linearizable_to_storespec) and "
@@ -63,8 +67,9 @@ RULE = ("combos (store configuration, sequential prefix history, 2-3 concurrent 
         "bucket of both stores: burst (seeded; 250 rounds of 3 concurrent operations per case, each round judged by the "
         "linearizability oracle) and stress (4 goroutines x 300 operations, history conservation checks); plus the fault "
         "family (file store, with and without cap: the index of one mailbox can no longer be rewritten, then 3-13 operations "
-        "on it, on its lock-bucket neighbour and on another bucket, each under a 1.5 s deadline); every such case is "
-        "non-trivial")
+        "on it, on its lock-bucket neighbour and on another bucket, each under a 1.5 s deadline) and the scan stream (the real "
+        "storage.RetentionScanner.DoScan as a concurrent party, deliveries forced after its p-th scheduling point, p = 0..7 "
+        "(0..14 thorough), both stores); every such case is non-trivial")
 TRUSTED = [
     "Go runtime: sync.Mutex/RWMutex give mutual exclusion, an unbuffered channel send completes only with a receive, close(done) releases the waiter (modelled, not verified)",
     "the controller's judgement 'blocked' = no progress for 50 ms (unexpected ones are re-run 3x with 500 ms before they are reported)",
@@ -93,7 +98,7 @@ def project(kind, ins, outs):
 
 
 def nontrivial(kind, ins, outs):
-    if kind in ("stress", "burst", "fault"):
+    if kind in ("stress", "burst", "fault", "scan"):
         return True
     s = ins[-1].rstrip("!")
     clients = [c for c in s if c != "e"]
